@@ -13,5 +13,8 @@ func splitContainsPath(p string) (dirNodePath []string, nodeName string, err err
 	}
 	dirNodePath = nodePath[:len(nodePath)-1]
 	nodeName = nodePath[len(nodePath)-1]
+	if nodeName == "" || nodeName == currentDir || nodeName == parentDir {
+		return nil, "", goaterr.Errorf("Path %s must end with a node name", p)
+	}
 	return dirNodePath, nodeName, nil
 }
